@@ -419,6 +419,15 @@ static void write_all(int fd, const void *p, size_t n)
     }
 }
 
+// A case that ran earlier in the same process (sequence replays: a failure that needs the state its
+// predecessors left behind — function-level statics, caches — reproduces only together with them).
+struct Pre
+{
+    bool is_enum = false;
+    uint64_t k = 0;
+    std::vector<uint8_t> bytes;
+};
+
 // On a sanitizer abort the child still tells the parent what the case was.
 extern "C" void __sanitizer_set_death_callback(void (*)(void));
 static Case *g_iso_case;
@@ -434,7 +443,7 @@ static void iso_on_death()
 
 static Outcome run_isolated(const Opts &o, const Target &t, bool is_enum,
                             uint64_t k, const std::vector<uint8_t> &bytes,
-                            double timeout_s)
+                            double timeout_s, const std::vector<Pre> *pre = nullptr)
 {
     Outcome out;
     int pfd[2];
@@ -458,6 +467,25 @@ static Outcome run_isolated(const Opts &o, const Target &t, bool is_enum,
         g_iso_case = &c;
         g_iso_fd = pfd[1];
         __sanitizer_set_death_callback(iso_on_death);
+        if (pre)
+        {
+            // the predecessors run first, in order, in this same process; their own verdicts do not matter
+            for (const Pre &p : *pre)
+            {
+                Case pc;
+                pc.want_desc = false;
+                if (p.is_enum)
+                {
+                    Src ps((unsigned __int128)p.k);
+                    run_in_process(t, ps, pc);
+                }
+                else
+                {
+                    Src ps(p.bytes.data(), p.bytes.size());
+                    run_in_process(t, ps, pc);
+                }
+            }
+        }
         if (is_enum)
         {
             Src s((unsigned __int128)k);
@@ -658,6 +686,7 @@ struct Failure
     std::string replay;
     int shrink_runs = 0;
     bool confirmed = true;
+    std::vector<Pre> pre; // non-empty: reproduces only after these earlier cases of its worker (sequence replay)
 };
 
 struct Stats
@@ -931,6 +960,9 @@ static void write_replay(const Opts &o, const Target &t, Failure &f)
         body += "mode enum\ndata " + std::to_string(f.k) + "\n";
     else
         body += "mode bytes\ndata " + tohex(f.bytes) + "\n";
+    // sequence replay: the cases that have to run first, in the same process, oldest first
+    for (auto &p : f.pre)
+        body += p.is_enum ? "pre_enum " + std::to_string(p.k) + "\n" : "pre " + tohex(p.bytes) + "\n";
     body += "kind " + f.kind + "\n";
     body += "signature " + f.sig + "\n";
     body += "--- message\n" + f.msg + "\n";
@@ -993,6 +1025,62 @@ static void process_failure(const Opts &o, const Target &t, Stats &st, Failure f
         else
             break;
     }
+    if (confirmed < 3 && last.verdict < 2 && f.kind != "hang")
+    {
+        // Passes on its own: does it need what its predecessors in the worker process left behind? Re-run it after
+        // the m cases that preceded it in its worker (m = 1, 2, 4, .. 64); a sequence that fails three times with the
+        // same signature is a confirmed, reproducible failure and the replay file carries the whole sequence.
+        auto build = [&](int m) {
+            std::vector<Pre> pre;
+            for (int j = m; j >= 1; j--)
+            {
+                uint64_t back = (uint64_t)j * (uint64_t)o.workers;
+                if (back > f.k)
+                    continue;
+                Pre p;
+                p.is_enum = f.is_enum;
+                p.k = f.k - back;
+                if (!f.is_enum)
+                    gen_bytes(o, t, p.k, p.bytes);
+                pre.push_back(std::move(p));
+            }
+            return pre;
+        };
+        auto fails_with = [&](const std::vector<Pre> &pre, Outcome &out) {
+            out = run_isolated(o, t, f.is_enum, f.k, f.bytes, hang_limit * 2, &pre);
+            return out.verdict >= 2 && out.sig == f.sig;
+        };
+        for (int m = 1; m <= 64 && !f.pre.size(); m *= 2)
+        {
+            std::vector<Pre> pre = build(m);
+            if (pre.empty())
+                break;
+            Outcome o1, o2, o3;
+            if (fails_with(pre, o1) && fails_with(pre, o2) && fails_with(pre, o3))
+            {
+                // the shortest suffix of the predecessors that still does it
+                for (size_t keep = 1; keep < pre.size(); keep++)
+                {
+                    std::vector<Pre> shorter(pre.end() - (long)keep, pre.end());
+                    Outcome q1, q2;
+                    if (fails_with(shorter, q1) && fails_with(shorter, q2))
+                    {
+                        pre = shorter;
+                        o3 = q2;
+                        break;
+                    }
+                }
+                f.pre = pre;
+                last = o3;
+                confirmed = 3;
+                f.msg = "[needs the " + std::to_string(pre.size()) + " case(s) run before it in the same process] " + o3.msg;
+                if (!o3.desc.empty())
+                    f.desc = o3.desc;
+            }
+            if (pre.size() < (size_t)m)
+                break; // no more history to add
+        }
+    }
     if (confirmed < 3)
     {
         // not reproducible in isolation with the same signature: report it,
@@ -1014,7 +1102,7 @@ static void process_failure(const Opts &o, const Target &t, Stats &st, Failure f
             }
         }
     }
-    if (f.confirmed && !f.is_enum)
+    if (f.confirmed && !f.is_enum && f.pre.empty())
     {
         double shr_to = f.kind == "hang" ? std::max(2.0, 20.0 * st.slowest_us / 1e6)
                                          : hang_limit;
@@ -1293,6 +1381,7 @@ static int do_replay(Opts &o)
         return 2;
     }
     std::string target, mode, data, sig;
+    std::vector<Pre> pre;
     size_t pos = 0;
     while (pos < txt.size())
     {
@@ -1311,6 +1400,19 @@ static int do_replay(Opts &o)
             mode = v;
         else if (k == "data")
             data = v;
+        else if (k == "pre")
+        {
+            Pre p;
+            p.bytes = fromhex(v);
+            pre.push_back(std::move(p));
+        }
+        else if (k == "pre_enum")
+        {
+            Pre p;
+            p.is_enum = true;
+            p.k = strtoull(v.c_str(), nullptr, 10);
+            pre.push_back(std::move(p));
+        }
         else if (k == "signature")
             sig = v;
         else if (k == "property")
@@ -1329,7 +1431,7 @@ static int do_replay(Opts &o)
         k = strtoull(data.c_str(), nullptr, 10);
     else
         bytes = fromhex(data);
-    Outcome r = run_isolated(o, *t, is_enum, k, bytes, std::max(o.hang_s, 10.0));
+    Outcome r = run_isolated(o, *t, is_enum, k, bytes, std::max(o.hang_s, 10.0) * (pre.empty() ? 1 : 2), pre.empty() ? nullptr : &pre);
     static const char *names[] = {"PASS", "DISCARD", "FAIL", "CRASH", "HANG"};
     printf("replay %s: %s", o.replay_file.c_str(), names[r.verdict]);
     if (r.verdict >= 2)
